@@ -407,6 +407,25 @@ def r02_python(chk):
         chk.ob('R02.7', ok, PANEL, fname, '%s branch' % kname, line=call.lineno,
                expected='called iff (self.y1 is not None and self.y2 is not None) is %s' % want_sub, got=conds,
                sample='%s under %s' % (kname, conds))
+    # the guard of the pre-load term tests every load component that is passed on
+    for kname in ('fkG0', 'fkG0y1y2'):
+        call = attr_calls(fn, kname)[0]
+        loads = [norm(a) for a in call.args if norm(a).endswith('_cte')]
+        tests = enclosing_tests(fn, call)
+        guard = [t for t, pol in tests if pol and any(l in norm(t) for l in loads)]
+        tested = set()
+        okg = len(guard) == 1 and isinstance(guard[0], ast.BoolOp) and isinstance(guard[0].op, ast.Or)
+        if okg:
+            for v in guard[0].values:
+                mm = re.match(r'^(\w+)!=0\.0?$', norm(v))
+                if mm:
+                    tested.add(mm.group(1))
+                else:
+                    okg = False
+        chk.ob('R02.7', okg and tested == set(loads) and len(loads) == 3, PANEL, fname, '%s pre-load guard' % kname, line=call.lineno,
+               expected='added whenever any of %s is non-zero' % loads, got=sorted(tested),
+               detail='' if tested == set(loads) else 'a pre-load with only %s non-zero adds no initial-stress matrix' % sorted(set(loads) - tested),
+               sample='%s guarded by %s' % (kname, sorted(tested)))
     # the pre-load term is accumulated into the same matrix before symmetrisation
     for kname in ('fkG0', 'fkG0y1y2'):
         call = attr_calls(fn, kname)[0]
@@ -539,7 +558,71 @@ def r04_python(chk, conv):
 
 
 def r08_python(chk):
-    pass
+    """R08.7: orchestration of the tangent / internal force"""
+    from .panelk import NUM_MODELS
+    m = module(PANEL)
+    kt = m.method('Panel', 'calc_kT')
+    sig0 = Sig(m.method('Panel', 'calc_k0'), drop_self=True)
+    sigG = Sig(m.method('Panel', 'calc_kG0'), drop_self=True)
+    c0 = attr_calls(kt, 'calc_k0')
+    cG = attr_calls(kt, 'calc_kG0')
+    chk.need(len(c0) == 1 and len(cG) == 1, 'Panel.calc_kT: expected one calc_k0 and one calc_kG0 call')
+    b0, p0 = bind(c0[0], sig0)
+    bG, pG = bind(cG[0], sigG)
+    g0 = {k: norm(v) for k, v in b0.items()}
+    gG = {k: norm(v) for k, v in bG.items()}
+    common = ['size', 'row0', 'col0', 'finalize', 'c', 'nx', 'ny', 'Fnxny', 'NLgeom']
+    ok = not p0 and not pG and all(g0.get(k) == gG.get(k) for k in common) and g0.get('NLgeom') == 'True' and \
+        all(g0.get(k) == k for k in common[:-1])
+    chk.ob('R08.7', ok, PANEL, 'Panel.calc_kT', 'kL and kG evaluated with the same state, quadrature, laminate table and placement',
+           expected={k: k for k in common[:-1]}, got={'calc_k0': g0, 'calc_kG0': gG}, detail='; '.join(p0 + pG),
+           sample='calc_kT: calc_k0(%s) + calc_kG0(%s)' % (sorted(g0), sorted(gG)))
+    txt = [norm(n) for n in ast.walk(kt) if isinstance(n, ast.Assign)]
+    chk.ob('R08.7', 'kT=kL+kG' in txt and 'kL=%s' % norm(c0[0]) in txt and 'kG=%s' % norm(cG[0]) in txt, PANEL, 'Panel.calc_kT', 'kT = kL + kG', got=[t[:30] for t in txt])
+    # defaults `p = self.q if p is None else p`: the attribute is the parameter's own namesake
+    table = {'nx': 'self.nx', 'ny': 'self.ny', 'Fnxny': {'self.F', 'self._get_lam_F()'}}
+    nd = 0
+    for meth in ('calc_k0', 'calc_kG0', 'calc_fint', 'lb'):
+        fn = m.method('Panel', meth)
+        for n in ast.walk(fn):
+            if isinstance(n, ast.Assign) and isinstance(n.targets[0], ast.Name) and isinstance(n.value, ast.IfExp):
+                v = n.value
+                tgt = n.targets[0].id
+                t = norm(v.test)
+                if t == '%sisNone' % tgt and norm(v.orelse) == tgt and tgt in table:
+                    want = table[tgt] if isinstance(table[tgt], set) else {table[tgt]}
+                    chk.ob('R08.7', norm(v.body) in want, PANEL, 'Panel.' + meth, 'default of ' + tgt, line=n.lineno,
+                           expected='%s defaults to %s' % (tgt, sorted(want)), got=norm(v.body),
+                           detail='' if norm(v.body) in want else 'the internal force and the tangent would be integrated with different rules / laminates',
+                           sample='Panel.%s: %s defaults to %s' % (meth, tgt, norm(v.body)))
+                    nd += 1
+    chk.floor('R08.7 default idioms', nd, 6)
+    # kernel bindings
+    fi = m.method('Panel', 'calc_fint')
+    calls = [c for c in pyflow.calls_in(fi) if isinstance(c.func, ast.Name) and c.func.id == 'calc_fint']
+    chk.need(len(calls) == 1, 'Panel.calc_fint: kernel call vanished')
+    for model, rel in NUM_MODELS.items():
+        check_binding(chk, 'R08.7', PANEL, fi, 'Panel.calc_fint', calls[0], kernel_sig(rel, 'calc_fint'),
+                      {'cs': {'c', 'np.ascontiguousarray(c,dtype=DOUBLE)'}, 'Finput': {'Fnxny', 'self.FifFnxnyisNoneelseFnxny'}, 'panel': 'self', 'size': {'size', 'self.get_size()'},
+                       'col0': 'col0', 'nx': {'nx', 'self.nxifnxisNoneelsenx'}, 'ny': {'ny', 'self.nyifnyisNoneelseny'}}, 'calc_fint kernel call vs %s signature' % model)
+    k0 = m.method('Panel', 'calc_k0')
+    calls = attr_calls(k0, 'fkL_num')
+    chk.need(len(calls) == 1, 'Panel.calc_k0: fkL_num call vanished')
+    for model, rel in NUM_MODELS.items():
+        check_binding(chk, 'R08.7', PANEL, k0, 'Panel.calc_k0', calls[0], kernel_sig(rel, 'fkL_num'),
+                      {'cs': {'c', 'np.ascontiguousarray(c,dtype=DOUBLE)'}, 'Finput': {'Fnxny', 'self.FifFnxnyisNoneelseFnxny'}, 'panel': 'self', 'size': 'size', 'row0': 'row0', 'col0': 'col0',
+                       'nx': {'nx', 'self.nxifnxisNoneelsenx'}, 'ny': {'ny', 'self.nyifnyisNoneelseny'}, 'NLgeom': 'int(NLgeom)'}, 'fkL_num call vs %s signature' % model)
+    # assemblies: tangent and internal force leave the quadrature to the same panel defaults
+    am = module('compmech/panel/assembly/assembly.py')
+    quad = {}
+    for meth, callees in (('calc_kT', ('calc_k0', 'calc_kG0')), ('calc_fint', ('calc_fint',))):
+        fn = am.method('PanelAssembly', meth)
+        for cal in callees:
+            for c in attr_calls(fn, cal):
+                quad[(meth, cal)] = sorted((k.arg, norm(k.value)) for k in c.keywords if k.arg in ('nx', 'ny', 'Fnxny'))
+    chk.ob('R08.7', len({str(v) for v in quad.values()}) == 1, 'compmech/panel/assembly/assembly.py', 'PanelAssembly.calc_kT/calc_fint',
+           'same quadrature and laminate arguments for tangent and internal force', got={str(k): v for k, v in quad.items()},
+           sample='assembly kT/fint quadrature kwargs: %s' % sorted({str(v) for v in quad.values()}))
 
 
 check_finalize_path_uncond = check_finalize_path
